@@ -19,6 +19,13 @@ def load():
 def apply(m, root):
     for e in m["edits"]:
         p = os.path.join(root, e["file"])
+        if "git_show" in e:
+            # replace the file by its content at a given revision of /repo (used to re-introduce repaired defects)
+            r = subprocess.run(["git", "-C", REPO, "show", e["git_show"]], stdout=subprocess.PIPE, stderr=subprocess.PIPE)
+            if r.returncode != 0:
+                return f"git show {e['git_show']} failed"
+            open(p, "wb").write(r.stdout)
+            continue
         s = open(p).read()
         n = s.count(e["find"])
         if n != e.get("count", 1):
